@@ -16,7 +16,8 @@ from typing import Any, Optional
 from collections.abc import Callable, Iterable, Iterator
 from elementpath.protocols import ElementProtocol
 from elementpath.exceptions import xpath_error
-from elementpath.datatypes import UntypedAtomic, AnyURI, AbstractQName
+from elementpath.datatypes import UntypedAtomic, AnyURI, AbstractQName, AbstractDateTime, \
+    AbstractBinary
 from elementpath.collations import UNICODE_CODEPOINT_COLLATION, CollationManager
 from elementpath.xpath_nodes import XPathNode, EtreeElementNode, TextAttributeNode, \
     NamespaceNode, TextNode, CommentNode, ProcessingInstructionNode, EtreeDocumentNode
@@ -396,6 +397,15 @@ def same_key(k1: Any, k2: Any) -> bool:
         return isinstance(k2, float) and math.isnan(k2)
     elif isinstance(k1, AbstractQName) ^ isinstance(k2, AbstractQName):
         return False
+    elif isinstance(k1, AbstractDateTime) or isinstance(k2, AbstractDateTime):
+        # Same primitive type and both with or both without a timezone
+        if not isinstance(k1, type(k2)) and not isinstance(k2, type(k1)):
+            return False
+        elif (k1.tzinfo is None) ^ (k2.tzinfo is None):
+            return False
+    elif isinstance(k1, AbstractBinary) or isinstance(k2, AbstractBinary):
+        if not isinstance(k1, type(k2)) and not isinstance(k2, type(k1)):
+            return False
 
     try:
         return True if k1 == k2 else False
